@@ -23,7 +23,7 @@ EXPLANATION = (
     'restores / is outermost-wins.  Result equality with plain exec is not '
     'decided.')
 FLOORS = {'C19.a': 10, 'C19.b': 1, 'C19.c': 1, 'C19.d': 1, 'C19.e': 2,
-          'C19.f': 4, 'C19.g': 1, 'C19.h': 1}
+          'C19.f': 4, 'C19.g': 1, 'C19.h': 1, 'C19.i': 1}
 FILES = ['pyglove/core/coding/parsing.py', 'pyglove/core/coding/permissions.py',
          'pyglove/core/coding/execution.py', 'pyglove/core/coding/errors.py']
 
@@ -519,6 +519,32 @@ def rule_h(ctx):
          f'scope uses {sorted(ks)}, getter reads {sorted(kg)}')
 
 
+THREAD_DISPATCH = ('submit', 'Thread', 'apply_async', 'map_async', 'run_in_executor', 'start_new_thread', 'Timer')
+
+
+def rule_i(ctx):
+  """The permission scope is thread-local: code that is validated against the
+  scoped permission must be parsed and run on the thread that entered the
+  scope.  In coding/execution.py a callable is therefore called directly or
+  handed to the process sandbox, never dispatched to another thread."""
+  idx = ctx.index
+  m = idx.by_relpath.get('pyglove/core/coding/execution.py')
+  bad = []
+  n = 0
+  for f in m.funcs.values():
+    n += 1
+    for c in A.calls_in(f.node):
+      d = A.call_name(c) or ''
+      if d.split('.')[-1] in THREAD_DISPATCH:
+        bad.append(f'{f.qualname}: `{A.unparse(c, 70)}` (line {c.lineno})')
+  ctx.ob('C19.i', 'pyglove.core.coding.execution#thread-dispatch', not bad,
+         'evaluation stays on the calling thread (or in the process sandbox): the thread-local permission scope is '
+         'the one the code is validated against', m.relpath, 'work is dispatched to another thread: ' + '; '.join(bad) +
+         ' - that thread sees no permission scope and the code is not validated')
+  if n < 3:
+    raise AnalysisError('coding/execution.py changed shape')
+
+
 def run(ctx):
   ctx.consult(*FILES)
   rule_a(ctx)
@@ -529,6 +555,7 @@ def run(ctx):
   rule_f(ctx)
   rule_g(ctx)
   rule_h(ctx)
+  rule_i(ctx)
   ctx.note('observation (not armed): evaluate(code, permission=X) inside `with permission(Y)` '
            'uses X (explicit argument wins over the scope); whether an explicit argument is an '
            '"inner scope" is a reading of the statement')
